@@ -480,6 +480,36 @@ def run(run):
     rng = run.rng('c09')
     n = 8000 if thorough else 400
     slow_replies = [6, 12, 31] if thorough else [6]
+    # ---- directed: boundary protocol numbers in the reply, always driven ----
+    # (falsy 0, 1, the oldest/newest known-but-unsupported numbers; every one
+    # with several allowed versions, where heeding the reply and ignoring it
+    # lead to different outcomes)
+    directed = []
+    for proto in [0, 1] + known_unsup[:1] + known_unsup[-1:]:
+        if proto in sup_all:
+            continue
+        for allowed in (None, [sup[0], sup[-1]], sup[:5]):
+            for named in (True, False):
+                v = {'protocol': proto}
+                if named:
+                    v['name'] = 'old'
+                directed.append({
+                    'allowed': allowed, 'default': None,
+                    'behaviour': ('reply', {'version': v}),
+                    'as_names': 'numbers', 'auth': False,
+                    'host': '127.0.0.1', 'multi': True})
+    for k, cfg in enumerate(directed):
+        if not run.mine(k):
+            continue
+        err = None
+        for attempt in range(3):
+            err = negotiate(run, rng, sup, order, cfg, sup_all)
+            if err is None:
+                break
+        run.case(('neg-directed', repr(cfg)))
+        run.count('directed_boundary_replies')
+        if err:
+            run.inconclusive_because('directed negotiation %d: %s' % (k, err))
     for i in range(n):
         if not run.mine(i):
             continue
